@@ -13,9 +13,11 @@ def unhx(s):
     return b"" if s == "-" else binascii.unhexlify(s)
 
 
-def fs_tokens(fs, sched=()):
-    """fs: dict/list of (path str|bytes -> bytes); sched: list of (callindex, 'n' | 'tK')."""
+def fs_tokens(fs, sched=(), dirs=()):
+    """fs: dict/list of (path str|bytes -> bytes); sched: list of (callindex, 'n' | 'tK');
+    dirs: directories that must exist (real mode), passed as entries whose path ends in '/'."""
     items = list(fs.items()) if isinstance(fs, dict) else list(fs)
+    items = [(d.rstrip("/") + "/", b"") for d in dirs] + items
     t = [str(len(items))]
     for p, d in items:
         t += [hx(p), hx(d)]
@@ -30,12 +32,21 @@ def line_create(prefix, mode, par, slice_, nparity, g, files, fs, sched=()):
                     + [hx(f) for f in files] + fs_tokens(fs, sched))
 
 
-def line_verify(prefix, mode, index, g, fs, sched=()):
-    return " ".join([prefix, "verify", mode, hx(index), str(g)] + fs_tokens(fs, sched))
+def line_verify(prefix, mode, index, g, fs, sched=(), dirs=()):
+    return " ".join([prefix, "verify", mode, hx(index), str(g)] + fs_tokens(fs, sched, dirs))
 
 
-def line_repair(prefix, mode, index, dbl, g, fs, sched=()):
-    return " ".join([prefix, "repair", mode, hx(index), "1" if dbl else "0", str(g)] + fs_tokens(fs, sched))
+def line_repair(prefix, mode, index, dbl, g, fs, sched=(), dirs=()):
+    return " ".join([prefix, "repair", mode, hx(index), "1" if dbl else "0", str(g)] + fs_tokens(fs, sched, dirs))
+
+
+def parent_dirs(paths):
+    out = []
+    for p in paths:
+        d = p.rsplit("/", 1)[0]
+        if d and d not in out:
+            out.append(d)
+    return out
 
 
 def parse_result(s):
